@@ -354,7 +354,32 @@ def check_cubic(chk, F, M, I, rows, i, roles, J, m):
            "a_i=%s b_i=%s c_i=%s" % (Ac, Bc, Cc), construct=cls + "/thomas/forward-scalars")
     # row update: x_i = (x_i - b_i x_{i-1}) * inv
     rowe = [e for e in Lf.effects if e.target == arr and isinstance(e.value, Vec)]
-    final = rowe[-1].value if rowe else Vec()
+    sweep_covers_last = False
+    if not rowe:
+        # factorisation and right-hand-side sweep kept in separate loops over the same rows (the sweep reads the cached
+        # pivots back): the sweep's row update is taken from the other loop, cached pivots resolved to their definition
+        from .c05 import rebind_effect
+        for L2 in I.loops:
+            if L2 is Lf or L2.inner or L2.step != Lf.step or L2.cond_op != Lf.cond_op or L2.hi is None:
+                continue
+            extra_ = sp.expand(sp.sympify(L2.hi) - sp.sympify(Lf.hi))
+            if sym.is_zero(sp.sympify(L2.lo) - sp.sympify(Lf.lo)) and (sym.is_zero(extra_) or sym.is_zero(extra_ - 1)):
+                rowe = [rebind_effect(e, L2.var, iv) for e in L2.effects if e.target == arr and isinstance(e.value, Vec)]
+                if rowe:
+                    sweep_covers_last = sym.is_zero(extra_ - 1)      # the sweep also eliminates the last row (row N)
+                    break
+
+    def resolve_inv(v, idx, definition):
+        """reads of the cached inverse pivot at row idx stand for the expression stored there"""
+        if definition is None:
+            return v
+        out = Vec()
+        for a_, c_ in v.t.items():
+            c2 = sp.sympify(c_)
+            rep = {x_: definition for x_ in c2.atoms(sp.Indexed) if str(x_.base).split("#")[0] == e_inv.target and sym.is_zero(x_.indices[0] - idx)}
+            out = out.add(Vec({a_: c2.xreplace(rep) if rep else c2}))
+        return out
+    final = resolve_inv(rowe[-1].value, iv, e_inv.value) if rowe else Vec()
     tagp = None
     for a_ in final.t:
         tagp = a_[0]
@@ -428,12 +453,19 @@ def check_cubic(chk, F, M, I, rows, i, roles, J, m):
             else:
                 out = out.add(Vec({a_: c_}))
         return out
-    ok0 = bool(r0) and inv0 and vec_zero(ex_v(through_row0(r0[-1].value)).add(ex_v(rhs0[0].value).scale(M.expand_scalar(inv0[-1].value)), -1))
+    ok0 = bool(r0) and inv0 and vec_zero(ex_v(through_row0(resolve_inv(r0[-1].value, Integer(0), inv0[-1].value if inv0 else None))).add(ex_v(rhs0[0].value).scale(M.expand_scalar(inv0[-1].value)), -1))
     chk.ob("C02-R3", "%s first row normalised by its pivot" % cls, bool(ok0), loc(g), "", construct=cls + "/thomas/first-row")
     rn = straight(arr, n, ops=("*=",))
     okn = False
+    if not rn and sweep_covers_last and rowe and invn:
+        # the last row is eliminated by the sweep loop itself: its update at i = N with the last pivot
+        class _E:
+            pass
+        e_last = _E()
+        e_last.value = sub_vec(rowe[-1].value, iv, n)
+        rn = [e_last]
     if rn and invn:
-        v = rn[-1].value
+        v = resolve_inv(rn[-1].value, n, invn[-1].value)
         tagn = [a_[0] for a_ in v.t if sym.is_zero(a_[1] - (n - 1))]
         if tagn:
             Bn = sp.expand(-sp.diff(sp.expand(1 / M.expand_scalar(invn[-1].value)), cps[0]))
